@@ -666,8 +666,12 @@ Example nonvacuous_b :
   N.of_nat (length (concat segs)) < 2^62.
 Proof.
   cbn zeta. rewrite pow62. unfold bounded. pows.
-  repeat split; try discriminate; try (cbn [concat app length]; lia).
-  repeat constructor; cbn [sorted2 fst snd]; unfold lt2; cbn [fst snd]; try lia; try discriminate.
+  split; [|split; [discriminate|cbn [concat app length]; lia]].
+  constructor; [|constructor; [|constructor]].
+  - split; [cbn [sorted2]; tauto|]. split; [|discriminate].
+    constructor; [cbn [fst snd]; lia|constructor].
+  - split; [cbn [sorted2]; unfold lt2; cbn [fst snd]; repeat split; lia|]. split; [|discriminate].
+    constructor; [cbn [fst snd]; lia|]. constructor; [cbn [fst snd]; lia|constructor].
 Qed.
 
 Print Assumptions slice_keys_correct.
